@@ -562,3 +562,442 @@ Proof.
           OAddAll [ZI 5 17 0 90; ZI 6 30 0 95]; OGen SpUnknown 511; OGen SpUnknown 512; OAdd (ZI 7 11 0 5)].
   eexists. split; [reflexivity|]. split; [vm_compute; reflexivity|]. vm_compute. auto.
 Qed.
+
+(* ================= depth: twin rule, what a selection contains, monotonicity, the evolution loop ================= *)
+Section Depth.
+Context {ind : Type}.
+Variable cmp : ind -> ind -> comparison.
+Variable dedup : ind -> ind -> bool.
+Hypothesis TP : total_preorder cmp.
+Local Notation lec := (le cmp).
+
+(* ---------- no two neighbours of the ranking are twins ---------- *)
+Lemma dedup_go_no_twins l : forall a, no_adjacent_twins dedup (a :: dedup_go dedup a l).
+Proof.
+  induction l as [|x l IH]; intros a; cbn [dedup_go]; [cbn; exact I|].
+  destruct (dedup x a) eqn:E; [apply IH|]. cbn [no_adjacent_twins]. split; [exact E|apply IH].
+Qed.
+Lemma dedup_by_no_twins l : no_adjacent_twins dedup (dedup_by dedup l).
+Proof. destruct l; cbn [dedup_by]; [cbn; exact I|apply dedup_go_no_twins]. Qed.
+Lemma firstn_no_twins l : forall n, no_adjacent_twins dedup l -> no_adjacent_twins dedup (firstn n l).
+Proof.
+  induction l as [|a l IH]; intros n H; destruct n as [|n]; cbn [firstn]; try (cbn; exact I).
+  destruct l as [|b l]; [destruct n; cbn; exact I|].
+  destruct n as [|n]; [cbn; exact I|].
+  cbn [no_adjacent_twins] in H. destruct H as [H1 H2].
+  specialize (IH (S n) H2). cbn [firstn] in IH |- *. cbn [no_adjacent_twins]. split; assumption.
+Qed.
+Lemma e_add_with_iter_no_twins (e : elitism ind) ys : no_adjacent_twins dedup (e_inds (e_add_with_iter cmp dedup e ys)).
+Proof. cbn [e_add_with_iter e_with e_inds]. apply firstn_no_twins, dedup_by_no_twins. Qed.
+Lemma e_add_all_no_twins (e : elitism ind) ys :
+  no_adjacent_twins dedup (e_inds e) -> no_adjacent_twins dedup (e_inds (e_add_all cmp dedup e ys)).
+Proof. intros H. destruct ys; [exact H|apply e_add_with_iter_no_twins]. Qed.
+
+Definition tw_inv (p : pop ind) : Prop :=
+  match p with
+  | PG _ => True
+  | PE e => no_adjacent_twins dedup (e_inds e)
+  | PR r => no_adjacent_twins dedup (e_inds (r_elite r))
+  end.
+
+Lemma step_tw p o p' : tw_inv p -> step cmp dedup p o = Some p' -> tw_inv p'.
+Proof.
+  intros H St. destruct p as [g|e|r]; destruct o as [x|xs|sp t|d h n|]; cbn [step] in St;
+    try (injection St as <-; cbn [tw_inv] in *; auto; fail).
+  - injection St as <-. cbn [tw_inv]. apply (e_add_with_iter_no_twins e [x]).
+  - injection St as <-. cbn [tw_inv] in *. apply e_add_all_no_twins, H.
+  - injection St as <-. cbn [tw_inv r_add r_add_all r_elite] in *. apply e_add_all_no_twins, H.
+  - injection St as <-. cbn [tw_inv r_add_all r_elite] in *. apply e_add_all_no_twins, H.
+  - destruct (r_on_generation r sp t) as [r'|] eqn:G; cbn in St; [|discriminate]. injection St as <-.
+    cbn [tw_inv] in *. assert (E : r_elite r' = r_elite r); [|rewrite E; exact H].
+    unfold r_on_generation in G.
+    destruct (r_phase r); repeat match type of G with context [if ?c then _ else _] => destruct c end;
+      try discriminate; injection G as <-; reflexivity.
+Qed.
+Lemma run_tw ops : forall p p', tw_inv p -> run cmp dedup ops p = Some p' -> tw_inv p'.
+Proof.
+  induction ops as [|o ops IH]; intros p p' H R; cbn [run] in R; [injection R as <-; exact H|].
+  destruct (step cmp dedup p o) as [p1|] eqn:St; [|discriminate]. eapply IH; [|exact R]. eapply step_tw; eauto.
+Qed.
+Lemma start_tw p0 : start_state p0 -> tw_inv p0.
+Proof.
+  intros [(sel & best & ->)|[(max & sel & H)|(c & H)]]; [exact I| |].
+  - unfold elitism_new in H. destruct (max <? 1)%nat; [discriminate|]. injection H as <-. exact I.
+  - unfold rosomaxa_new, r_new in H. destruct (_ || _); cbn in H; [discriminate|]. injection H as <-. exact I.
+Qed.
+Lemma no_twins_reachable p0 ops p : start_state p0 -> run cmp dedup ops p0 = Some p ->
+  is_greedy p = false -> no_adjacent_twins dedup (ranked p).
+Proof.
+  intros S R G. pose proof (run_tw ops p0 p (start_tw p0 S) R) as T. destruct p as [g|e|r]; [discriminate| |]; exact T.
+Qed.
+
+(* ---------- the twin rule: whatever leaves the population is dominated by something that stays ---------- *)
+Lemma dedup_go_removed l : forall a x, StronglySorted lec l -> Forall (lec a) l -> In x l ->
+  In x (dedup_go dedup a l) \/ exists y, (y = a \/ In y (dedup_go dedup a l)) /\ lec y x /\ dedup x y = true.
+Proof.
+  induction l as [|z l IH]; intros a x S F Hx; [destruct Hx|].
+  inversion S as [|? ? S' F']; subst. inversion F as [|? ? Fa Fl]; subst.
+  cbn [dedup_go]. destruct (dedup z a) eqn:E.
+  - destruct Hx as [<-|Hx].
+    + right. exists a. auto.
+    + apply IH; auto.
+  - destruct Hx as [<-|Hx]; [left; cbn; auto|].
+    destruct (IH z x S' F' Hx) as [H|(y & Hy & Hle & Hd)].
+    + left; cbn; auto.
+    + right. exists y. split; [|auto]. right. destruct Hy as [->|Hy]; cbn; auto.
+Qed.
+Lemma dedup_by_removed l x : StronglySorted lec l -> In x l ->
+  In x (dedup_by dedup l) \/ exists y, In y (dedup_by dedup l) /\ lec y x /\ dedup x y = true.
+Proof.
+  destruct l as [|a l]; intros S Hx; [destruct Hx|]. inversion S as [|? ? S' F]; subst. cbn [dedup_by].
+  destruct Hx as [<-|Hx]; [left; cbn; auto|].
+  destruct (dedup_go_removed l a x S' F Hx) as [H|(y & Hy & Hle & Hd)].
+  - left; cbn; auto.
+  - right. exists y. split; [|auto]. destruct Hy as [->|Hy]; cbn; auto.
+Qed.
+
+Lemma in_firstn_skipn {A} n (l : list A) x : In x l -> In x (firstn n l) \/ In x (skipn n l).
+Proof. intros H. rewrite <- (firstn_skipn n l) in H. apply in_app_or in H. exact H. Qed.
+Lemma skipn_In' {A} n (l : list A) x : In x (skipn n l) -> In x l.
+Proof. intros H. rewrite <- (firstn_skipn n l). apply in_or_app; auto. Qed.
+Lemma firstn_skipn_le l : forall n a b, StronglySorted lec l -> In a (firstn n l) -> In b (skipn n l) -> lec a b.
+Proof.
+  induction l as [|z l IH]; intros n a b S Ha Hb.
+  - destruct n; cbn in Ha; destruct Ha.
+  - destruct n as [|n]; cbn [firstn skipn] in Ha, Hb; [destruct Ha|].
+    inversion S as [|? ? S' F]; subst. destruct Ha as [<-|Ha].
+    + rewrite Forall_forall in F. apply F. eapply skipn_In'; eauto.
+    + eapply IH; eauto.
+Qed.
+Lemma skipn_nonempty_firstn_length {A} n (l : list A) x : In x (skipn n l) -> length (firstn n l) = n.
+Proof.
+  intros H. apply firstn_length_le. destruct (Nat.le_gt_cases n (length l)) as [|G]; [auto|].
+  rewrite skipn_all2 in H by lia. destruct H.
+Qed.
+
+Lemma e_add_dropped (e : elitism ind) ys x : In x (e_inds e ++ ys) ->
+  let l' := e_inds (e_add_with_iter cmp dedup e ys) in
+  In x l' \/ (exists y, In y l' /\ lec y x /\ dedup x y = true) \/
+  (length l' = e_max e /\ forall y, In y l' -> lec y x).
+Proof.
+  intros Hx. cbn [e_add_with_iter e_with e_inds e_max]. cbv zeta.
+  set (S := ssort cmp (e_inds e ++ ys)).
+  assert (SS : StronglySorted lec S) by (apply ssort_sorted; auto).
+  assert (SD : StronglySorted lec (dedup_by dedup S)) by (apply dedup_by_sorted; auto).
+  assert (HxS : In x S) by (apply (proj2 (ssort_In cmp dedup (e_inds e ++ ys) x)); exact Hx).
+  assert (T : forall z, In z (skipn (e_max e) (dedup_by dedup S)) ->
+              length (firstn (e_max e) (dedup_by dedup S)) = e_max e /\
+              forall y, In y (firstn (e_max e) (dedup_by dedup S)) -> lec y z).
+  { intros z Hz. split; [eapply skipn_nonempty_firstn_length; eauto|]. intros y Hy. eapply firstn_skipn_le; eauto. }
+  destruct (dedup_by_removed S x SS HxS) as [H|(y & Hy & Hle & Hd)].
+  - destruct (in_firstn_skipn (e_max e) _ _ H) as [H1|H1]; [left; auto|right; right; apply T; auto].
+  - destruct (in_firstn_skipn (e_max e) _ _ Hy) as [H1|H1].
+    + right; left. exists y; auto.
+    + right; right. destruct (T y H1) as [L F]. split; [auto|]. intros z Hz. eapply le_trans; eauto.
+Qed.
+
+Lemma e_add_all_dropped (e : elitism ind) ys x : In x (e_inds e ++ ys) ->
+  let l' := e_inds (e_add_all cmp dedup e ys) in
+  In x l' \/ (exists y, In y l' /\ lec y x /\ dedup x y = true) \/
+  (length l' = e_max e /\ forall y, In y l' -> lec y x).
+Proof.
+  destruct ys as [|y ys]; cbn [e_add_all]; [|apply e_add_dropped].
+  intros Hx. cbv zeta. rewrite app_nil_r in Hx. left; exact Hx.
+Qed.
+
+Lemma r_add_all_dropped (r : rosomaxa ind) xs x : In x (e_inds (r_elite r) ++ xs) ->
+  let l' := e_inds (r_elite (r_add_all cmp dedup r xs)) in
+  In x l' \/ (exists y, In y l' /\ lec y x /\ dedup x y = true) \/
+  (length l' = e_max (r_elite r) /\ forall y, In y l' -> lec y x) \/
+  (exists b, hd_error (e_inds (r_elite r)) = Some b /\ cmp x b = Gt).
+Proof.
+  intros Hx. cbn [r_add_all r_elite]. cbv zeta.
+  set (ys := filter (is_comparable cmp (hd_error (e_inds (r_elite r)))) xs).
+  assert (K : In x (e_inds (r_elite r) ++ ys) \/ exists b, hd_error (e_inds (r_elite r)) = Some b /\ cmp x b = Gt).
+  { apply in_app_or in Hx. destruct Hx as [Hx|Hx]; [left; apply in_or_app; auto|].
+    destruct (is_comparable cmp (hd_error (e_inds (r_elite r))) x) eqn:Q.
+    - left. apply in_or_app; right. apply filter_In; auto.
+    - right. unfold is_comparable in Q. destruct (hd_error (e_inds (r_elite r))) as [b|]; [|discriminate].
+      exists b. split; [reflexivity|]. apply negb_false_iff in Q. apply is_gt_true in Q. exact Q. }
+  destruct K as [K|K]; [|auto].
+  pose proof (e_add_all_dropped (r_elite r) ys x K) as D. cbv zeta in D. destruct D as [A|[A|A]]; auto.
+Qed.
+
+(* ---------- run over concatenated histories ---------- *)
+Lemma run_app ops1 : forall ops2 p,
+  run cmp dedup (ops1 ++ ops2) p = match run cmp dedup ops1 p with Some p' => run cmp dedup ops2 p' | None => None end.
+Proof.
+  induction ops1 as [|o ops1 IH]; intros ops2 p; cbn [app run]; [reflexivity|].
+  destruct (step cmp dedup p o); [apply IH|reflexivity].
+Qed.
+Lemma offered_app (ops1 ops2 : list (op ind)) : offered (ops1 ++ ops2) = offered ops1 ++ offered ops2.
+Proof.
+  induction ops1 as [|o ops1 IH]; [reflexivity|]. cbn [app]. rewrite (offered_cons o (ops1 ++ ops2)), (offered_cons o ops1), IH.
+  apply app_assoc.
+Qed.
+Lemma run_phase_mono ops : forall p p', run cmp dedup ops p = Some p' -> (phase_rank p <= phase_rank p')%nat.
+Proof.
+  induction ops as [|o ops IH]; intros p p' R; cbn [run] in R; [injection R as <-; lia|].
+  destruct (step cmp dedup p o) as [p1|] eqn:St; [|discriminate].
+  pose proof (phases_forward cmp dedup p o p1 St). pose proof (IH _ _ R). lia.
+Qed.
+
+(* ---------- Rosomaxa, Initial phase: the stored solutions are exactly what was offered, in order ---------- *)
+Lemma initial_solutions_step p o p1 sols1 : step cmp dedup p o = Some p1 -> initial_solutions p1 = Some sols1 ->
+  exists sols, initial_solutions p = Some sols /\ sols1 = sols ++ offered [o].
+Proof.
+  intros St I1. destruct p as [g|e|r]; destruct o as [x|xs|sp t|d h n|]; cbn [step] in St;
+    try (injection St as <-; cbn in I1; discriminate).
+  - injection St as <-. cbn [initial_solutions r_add r_add_all r_phase] in *.
+    destruct (r_phase r); try discriminate. injection I1 as <-. eexists; split; reflexivity.
+  - injection St as <-. cbn [initial_solutions r_add_all r_phase] in *.
+    destruct (r_phase r); try discriminate. injection I1 as <-. eexists; split; [reflexivity|].
+    cbn [offered]. rewrite app_nil_r. reflexivity.
+  - destruct (r_on_generation r sp t) as [r'|] eqn:G; cbn in St; [|discriminate]. injection St as <-.
+    unfold r_on_generation in G. cbn [initial_solutions] in *.
+    destruct (r_phase r) as [sols|sel net|sel];
+      repeat match type of G with context [if ?c then _ else _] => destruct c end;
+      try discriminate; injection G as <-; cbn [r_phase] in I1; try discriminate.
+    injection I1 as <-. eexists; split; [reflexivity|]. cbn. rewrite app_nil_r. reflexivity.
+  - injection St as <-. eexists; split; [exact I1|]. cbn. rewrite app_nil_r. reflexivity.
+  - injection St as <-. eexists; split; [exact I1|]. cbn. rewrite app_nil_r. reflexivity.
+Qed.
+Lemma initial_solutions_run ops : forall p p' sols', run cmp dedup ops p = Some p' -> initial_solutions p' = Some sols' ->
+  exists sols, initial_solutions p = Some sols /\ sols' = sols ++ offered ops.
+Proof.
+  induction ops as [|o ops IH]; intros p p' sols' R I'; cbn [run] in R.
+  - injection R as <-. exists sols'. split; [auto|]. cbn. rewrite app_nil_r. reflexivity.
+  - destruct (step cmp dedup p o) as [p1|] eqn:St; [|discriminate].
+    destruct (IH _ _ _ R I') as (sols1 & I1 & ->).
+    destruct (initial_solutions_step _ _ _ _ St I1) as (sols & I0 & ->).
+    exists sols. split; [auto|]. rewrite (offered_cons o ops), app_assoc. reflexivity.
+Qed.
+Lemma initial_select_all_offered p0 ops p draws hits nodes : start_state p0 -> run cmp dedup ops p0 = Some p ->
+  phase_rank p = 0%nat -> select p draws hits nodes = offered ops.
+Proof.
+  intros S R Ph. destruct p as [g|e|r]; cbn [phase_rank] in Ph; try discriminate.
+  destruct (r_phase r) as [sols|sel net|sel] eqn:E; try discriminate.
+  assert (I' : initial_solutions (PR r) = Some sols) by (cbn; rewrite E; reflexivity).
+  destruct (initial_solutions_run ops p0 (PR r) sols R I') as (s0 & I0 & ->).
+  assert (s0 = []).
+  { destruct S as [(sel & best & ->)|[(max & sel & H)|(c & H)]]; [discriminate| |].
+    - unfold elitism_new in H. destruct (max <? 1)%nat; [discriminate|]. injection H as <-. discriminate.
+    - unfold rosomaxa_new, r_new in H. destruct (_ || _); cbn in H; [discriminate|]. injection H as <-.
+      cbn in I0. injection I0 as <-. reflexivity. }
+  subst s0. cbn [select r_select]. unfold r_select. rewrite E. reflexivity.
+Qed.
+
+(* Greedy and Elitism have no panicking step *)
+Lemma non_rosomaxa_no_panic ops : forall p, (forall r, p <> PR r) -> run cmp dedup ops p <> None.
+Proof.
+  induction ops as [|o ops IH]; intros p N; cbn [run]; [discriminate|].
+  destruct p as [g|e|r]; [| |exfalso; eapply N; reflexivity];
+    destruct o; cbn [step]; apply IH; intros r; discriminate.
+Qed.
+
+End Depth.
+
+Section Thms2.
+Context {ind : Type}.
+Variable cmp : ind -> ind -> comparison.
+Variable dedup : ind -> ind -> bool.
+Hypothesis TP : total_preorder cmp.
+Variable p0 : pop ind.
+Hypothesis START : start_state p0.
+
+(* every ranked individual was offered (or is the initial best of Greedy::new) *)
+Lemma ranked_offered ops p : run cmp dedup ops p0 = Some p -> incl (ranked p) (ranked p0 ++ offered ops).
+Proof.
+  intros H. pose proof (reach_inv cmp dedup TP p0 START _ _ H) as I. destruct p as [g|e|r]; cbn [inv ranked] in *.
+  - destruct I as [I1 _]. unfold g_ranked. destruct (g_best g) as [b|] eqn:B; intros z Hz; [|destruct Hz].
+    destruct Hz as [<-|[]]. apply I1. reflexivity.
+  - apply I.
+  - apply I.
+Qed.
+
+Lemma nonempty_iff_offered ops p : run cmp dedup ops p0 = Some p ->
+  ((0 < size p)%nat <-> ranked p0 ++ offered ops <> []).
+Proof.
+  intros H. split.
+  - intros Hs Hn. pose proof (ranked_offered _ _ H) as I. unfold size in Hs.
+    destruct (ranked p) as [|b l]; cbn in Hs; [lia|]. specialize (I b (or_introl eq_refl)). rewrite Hn in I. destruct I.
+  - intros Hn. destruct (ranked p0 ++ offered ops) as [|x l] eqn:E; [congruence|].
+    destruct (best_never_lost cmp dedup TP p0 START _ _ H x) as (b & Hb & _); [rewrite E; cbn; auto|].
+    unfold size. destruct (ranked p); cbn in *; [discriminate|lia].
+Qed.
+
+(* the first ranked individual is itself an offered one and a minimum of everything offered *)
+Lemma best_is_offered_minimum ops p b : run cmp dedup ops p0 = Some p -> hd_error (ranked p) = Some b ->
+  In b (ranked p0 ++ offered ops) /\ forall x, In x (ranked p0 ++ offered ops) -> cmp b x <> Gt.
+Proof.
+  intros H Hb. split.
+  - apply (ranked_offered _ _ H). apply hd_error_In; auto.
+  - intros x Hx. destruct (best_never_lost cmp dedup TP p0 START _ _ H x Hx) as (b' & Hb' & Hle). congruence.
+Qed.
+
+(* no operation makes the first ranked individual worse *)
+Lemma best_monotone ops p o p' b : run cmp dedup ops p0 = Some p -> step cmp dedup p o = Some p' ->
+  hd_error (ranked p) = Some b -> exists b', hd_error (ranked p') = Some b' /\ cmp b' b <> Gt.
+Proof.
+  intros H St Hb.
+  assert (R : run cmp dedup (ops ++ [o]) p0 = Some p').
+  { rewrite run_app, H. cbn [run]. rewrite St. reflexivity. }
+  apply (best_never_lost cmp dedup TP p0 START _ _ R).
+  rewrite offered_app, app_assoc. apply in_or_app; left.
+  apply (ranked_offered _ _ H). apply hd_error_In; auto.
+Qed.
+
+(* whenever the population is non-empty the selection contains the first ranked individual *)
+Lemma select_contains_best ops p draws hits nodes b : run cmp dedup ops p0 = Some p ->
+  (1 <= selection_size p0)%nat -> hd_error (ranked p) = Some b -> In b (select p draws hits nodes).
+Proof.
+  intros H Hsel Hb. pose proof (reach_inv cmp dedup TP p0 START _ _ H) as I.
+  destruct (run_cfg cmp dedup TP ops _ _ H) as (_ & _ & Sz). rewrite <- Sz in Hsel. clear Sz.
+  destruct p as [g|e|r]; cbn [inv select ranked selection_size] in *.
+  - unfold g_select, g_ranked in *. destruct (g_best g) as [b0|]; cbn in Hb; [|discriminate]. injection Hb as ->.
+    destruct (g_sel g); [lia|]. cbn. auto.
+  - apply hd_error_In. apply e_select_hd; [exact Hb|].
+    unfold e_sel_size. destruct (e_speed e) as [[| |rr]|]; try lia. apply slow_size_pos.
+  - destruct I as (Ei & _ & Es & Esp & C2 & Ph). unfold r_ranked in Hb.
+    assert (Hs : hd_error (e_select (r_elite r) draws) = Some b).
+    { apply e_select_hd; [exact Hb|]. unfold e_sel_size. rewrite Esp. lia. }
+    unfold r_select. destruct (r_phase r) as [sols|sel net|sel].
+    + destruct Ph as [_ P2]. apply P2. apply hd_error_In; auto.
+    + destruct Ph as [_ P2]. apply hd_error_In. apply firstn_cons_hd; [auto|].
+      set (es := if (6 <? sel)%nat then _ else _).
+      assert (Hes : (1 <= es)%nat) by (unfold es; destruct (6 <? sel)%nat; [destruct (hit hits 0), (hit hits 1)|]; lia).
+      pose proof (firstn_cons_hd es _ b Hes Hs) as F.
+      destruct (firstn es (e_select (r_elite r) draws)); cbn in *; [discriminate|exact F].
+    + apply hd_error_In. apply firstn_cons_hd; auto.
+Qed.
+
+(* the evolution loop: its result is no worse than the start content, every initial solution and every offspring of every generation *)
+Lemma offered_gens (gens : list (@generation ind)) g x : In g gens -> In x (gen_offspring g) ->
+  In x (offered (flat_map (fun g : generation => match g with (dr, hi, nd, offspring, sp, t) =>
+              [OSelect dr hi nd; OAddAll offspring; OGen sp t] end) gens)).
+Proof.
+  induction gens as [|g0 gens IH]; intros Hg Hx; [destruct Hg|]. cbn [flat_map]. rewrite offered_app. apply in_or_app.
+  destruct Hg as [->|Hg]; [left|right; auto].
+  destruct g as [[[[[dr hi] nd] off] sp] t]. cbn in *. rewrite app_nil_r. exact Hx.
+Qed.
+Lemma solve_result_best inits gens r : solve cmp dedup p0 inits gens = Some r ->
+  forall x, In x (ranked p0) \/ In x inits \/ (exists g, In g gens /\ In x (gen_offspring g)) ->
+  exists b, r = Some b /\ cmp b x <> Gt.
+Proof.
+  unfold solve. destruct (run cmp dedup (solve_ops inits gens) p0) as [p|] eqn:H; cbn; [|discriminate].
+  intros [= <-] x Hx. eapply (best_never_lost cmp dedup TP p0 START); eauto.
+  apply in_or_app. destruct Hx as [Hx|Hx]; [left; auto|right].
+  unfold solve_ops. rewrite offered_adds. apply in_or_app. destruct Hx as [Hx|(g & Hg & Hx)]; [left; auto|right].
+  rewrite offered_app. apply in_or_app; left. eapply offered_gens; eauto.
+Qed.
+
+End Thms2.
+
+(* ================= depth 2: selection sizes, reads leave the population alone, Exploitation is absorbing ================= *)
+Section Depth2.
+Context {ind : Type}.
+Variable cmp : ind -> ind -> comparison.
+Variable dedup : ind -> ind -> bool.
+
+Lemma pick_length (l : list ind) i : (i < length l)%nat -> length (pick l i) = 1%nat.
+Proof. intros H. unfold pick. destruct (nth_error l i) eqn:E; [reflexivity|]. apply nth_error_None in E. lia. Qed.
+Lemma flat_map_pick_length (l : list ind) idxs :
+  Forall (fun i => (i < length l)%nat) idxs -> length (flat_map (pick l) idxs) = length idxs.
+Proof. induction 1 as [|i idxs Hi _ IH]; cbn [flat_map]; [reflexivity|]. rewrite app_length, pick_length by auto. cbn. lia. Qed.
+Lemma e_indices_spec n size draws : (0 < size)%nat ->
+  length (e_indices n size draws) = n /\ Forall (fun i => (i < size)%nat) (e_indices n size draws).
+Proof.
+  intros Hs. unfold e_indices. split.
+  - rewrite firstn_length. cbn [length]. rewrite map_length, seq_length. lia.
+  - apply Forall_forall. intros i Hi. apply firstn_In in Hi. destruct Hi as [<-|Hi]; [lia|].
+    apply in_map_iff in Hi. destruct Hi as (j & <- & _).
+    pose proof (Z.mod_pos_bound (nth j draws 0) (Z.of_nat size)). lia.
+Qed.
+
+(* Elitism::select yields exactly the (speed-adjusted) selection size individuals from a non-empty population *)
+Lemma e_select_length (e : elitism ind) draws : e_inds e <> [] -> length (e_select e draws) = e_sel_size e.
+Proof.
+  intros NE. unfold e_select. destruct (e_inds e) as [|x l] eqn:E; [congruence|]. rewrite <- E.
+  assert (Hs : (0 < length (e_inds e))%nat) by (rewrite E; cbn; lia).
+  destruct (e_indices_spec (e_sel_size e) (length (e_inds e)) draws Hs) as [L F].
+  rewrite flat_map_pick_length; auto.
+Qed.
+Lemma g_select_length (g : greedy ind) : length (g_select g) = (length (g_ranked g) * g_sel g)%nat.
+Proof. unfold g_select, g_ranked. destruct (g_best g); cbn; [rewrite repeat_length; lia|reflexivity]. Qed.
+(* Rosomaxa: never more than the phase's selection size once the initial phase is over *)
+Lemma r_select_bound (r : rosomaxa ind) draws hits nodes :
+  match r_phase r with
+  | PInitial sols => r_select r draws hits nodes = sols
+  | PExploration k _ => (length (r_select r draws hits nodes) <= k)%nat
+  | PExploitation k => length (r_select r draws hits nodes) = Nat.min k (length (e_select (r_elite r) draws))
+  end.
+Proof. unfold r_select. destruct (r_phase r); [reflexivity|apply firstn_le_length|apply firstn_length]. Qed.
+
+(* select / ranked are reads; a generation tick never touches the ranking *)
+Lemma reads_keep_population p o p' : step cmp dedup p o = Some p' ->
+  match o with
+  | OSelect _ _ _ | ORanked => p' = p
+  | OGen _ _ => ranked p' = ranked p
+  | _ => True
+  end.
+Proof.
+  destruct o as [x|xs|sp t|d h n|]; try exact (fun _ => I); destruct p as [g|e|r]; cbn [step]; intros H;
+    try (injection H as <-; reflexivity).
+  destruct (r_on_generation r sp t) as [r'|] eqn:G; cbn in H; [|discriminate]. injection H as <-.
+  cbn [ranked]. unfold r_ranked. unfold r_on_generation in G.
+  destruct (r_phase r); repeat match type of G with context [if ?c then _ else _] => destruct c end;
+    try discriminate; injection G as <-; reflexivity.
+Qed.
+
+Lemma phase_rank_le2 (p : pop ind) : (phase_rank p <= 2)%nat.
+Proof. destruct p as [g|e|r]; cbn; try lia. destruct (r_phase r); lia. Qed.
+Lemma exploitation_absorbing ops : forall p p', run cmp dedup ops p = Some p' -> phase_rank p = 2%nat -> phase_rank p' = 2%nat.
+Proof. intros p p' R H. pose proof (run_phase_mono cmp dedup ops p p' R). pose proof (phase_rank_le2 p'). lia. Qed.
+
+End Depth2.
+
+(* ================= depth 3: during Initial and Exploration Rosomaxa stores / hands to the network exactly what was offered ================= *)
+Section Depth3.
+Context {ind : Type}.
+Variable cmp : ind -> ind -> comparison.
+Variable dedup : ind -> ind -> bool.
+
+Lemma stored_step p o p1 l1 : step cmp dedup p o = Some p1 -> stored p1 = Some l1 ->
+  exists l, stored p = Some l /\ l1 = l ++ offered [o].
+Proof.
+  intros St I1. destruct p as [g|e|r]; destruct o as [x|xs|sp t|d h n|]; cbn [step] in St;
+    try (injection St as <-; cbn in I1; discriminate).
+  - injection St as <-. cbn [stored r_add r_add_all r_phase] in *.
+    destruct (r_phase r); try discriminate; injection I1 as <-; eexists; split; reflexivity.
+  - injection St as <-. cbn [stored r_add_all r_phase] in *.
+    destruct (r_phase r); try discriminate; injection I1 as <-; (eexists; split; [reflexivity|]);
+      cbn [offered]; rewrite app_nil_r; reflexivity.
+  - destruct (r_on_generation r sp t) as [r'|] eqn:G; cbn in St; [|discriminate]. injection St as <-.
+    unfold r_on_generation in G. cbn [stored] in *.
+    destruct (r_phase r) as [sols|sel net|sel];
+      repeat match type of G with context [if ?c then _ else _] => destruct c end;
+      try discriminate; injection G as <-; cbn [r_phase] in I1; try discriminate;
+      injection I1 as <-; (eexists; split; [reflexivity|]); cbn; rewrite app_nil_r; reflexivity.
+  - injection St as <-. eexists; split; [exact I1|]. cbn. rewrite app_nil_r. reflexivity.
+  - injection St as <-. eexists; split; [exact I1|]. cbn. rewrite app_nil_r. reflexivity.
+Qed.
+Lemma stored_run ops : forall p p' l', run cmp dedup ops p = Some p' -> stored p' = Some l' ->
+  exists l, stored p = Some l /\ l' = l ++ offered ops.
+Proof.
+  induction ops as [|o ops IH]; intros p p' l' R I'; cbn [run] in R.
+  - injection R as <-. exists l'. split; [auto|]. cbn. rewrite app_nil_r. reflexivity.
+  - destruct (step cmp dedup p o) as [p1|] eqn:St; [|discriminate].
+    destruct (IH _ _ _ R I') as (l1 & I1 & ->).
+    destruct (stored_step _ _ _ _ St I1) as (l & I0 & ->).
+    exists l. split; [auto|]. rewrite (offered_cons o ops), app_assoc. reflexivity.
+Qed.
+Lemma stored_is_offered p0 ops p l : start_state p0 -> run cmp dedup ops p0 = Some p -> stored p = Some l -> l = offered ops.
+Proof.
+  intros S R I'. destruct (stored_run ops p0 p l R I') as (s0 & I0 & ->).
+  assert (s0 = []); [|subst s0; reflexivity].
+  destruct S as [(sel & best & ->)|[(max & sel & H)|(c & H)]]; [discriminate| |].
+  - unfold elitism_new in H. destruct (max <? 1)%nat; [discriminate|]. injection H as <-. discriminate.
+  - unfold rosomaxa_new, r_new in H. destruct (_ || _); cbn in H; [discriminate|]. injection H as <-.
+    cbn in I0. injection I0 as <-. reflexivity.
+Qed.
+End Depth3.
